@@ -1,7 +1,7 @@
 (* C04 -- statements only; see DESIGN.md section 6 C04.  Theorems are added as the proofs land;
    the witnesses below are evaluated in the kernel on the whole-parser model. *)
 From Coq Require Import String.
-From MdIt Require Import Prims Tables Mdurl Escape HtmlRe Tree Render Core Dump Dispatch MdurlProofs RenderProofs LinkProofs LinkSafeProofs LinkAllProofs.
+From MdIt Require Import Prims Tables Mdurl Escape HtmlRe Tree Render Core Dump Dispatch MdurlProofs RenderProofs LinkProofs LinkSafeProofs LinkAllProofs ConfigProofs.
 Local Open Scope string_scope.
 Local Open Scope list_scope.
 Local Open Scope N_scope.
@@ -84,6 +84,11 @@ Theorem C04_end_to_end : forall fuel m src d,
   LinkSafeProofs.raw_free url_safe (d_root d) = true.
 Proof. exact parse_urls_safe. Qed.
 
+(* the hypothesis on the emphasis table discharged: EVERY parser assembled from the shipped plugins, every input *)
+Theorem C04_shipped : forall cfg nest fuel src d, snd (parse fuel (build_md cfg nest) src) = inr d ->
+  LinkSafeProofs.raw_free url_safe (d_root d) = true.
+Proof. exact shipped_urls_safe. Qed.
+
 Theorem C04_browser_reads_tree_url : forall s, browser_view (escape_html (normalize_link s)) = normalize_link s.
 Proof. exact browser_reads_normalized. Qed.
 
@@ -108,5 +113,6 @@ Print Assumptions C04_pipeline.
 Print Assumptions C04_sites.
 Print Assumptions C04_tree_urls_validated.
 Print Assumptions C04_end_to_end.
+Print Assumptions C04_shipped.
 Print Assumptions C04_browser_reads_tree_url.
 Print Assumptions C04_normalized_is_ascii.
